@@ -10,6 +10,9 @@ import (
 	"context"
 	"encoding/json"
 	"fmt"
+	"os"
+	"os/exec"
+	"runtime/debug"
 	"strings"
 	"testing"
 	"time"
@@ -49,10 +52,84 @@ func c19Manifest(phases []string) *manifests.PackageManifest {
 	return m
 }
 
+// ---- tmplX: template files of a package executed by the REAL RenderTemplates, in a CHILD process:
+// recursion that is not stopped ends in `fatal error: stack overflow`, which no recover() catches and
+// which would take the whole harness down with it.  The parent re-executes its own test binary with
+// the scenario in the environment; the child prints one line; no line = the process died.
+
+const c19ChildEnv = "VERIF_C19_CHILD"
+
+func c19TmplRun(s verifc19.Scn) string {
+	if s.Blob == nil {
+		return "BAD-SCENARIO"
+	}
+	files := map[string]string{}
+	if err := json.Unmarshal([]byte(*s.Blob), &files); err != nil {
+		return "BAD-SCENARIO"
+	}
+	pkg := &packagetypes.Package{Manifest: c19Manifest([]string{"a"}), Files: packagetypes.Files{}}
+	for k, v := range files {
+		pkg.Files[k] = []byte(v)
+	}
+	return verifc19.GuardT(40*time.Second, func() string {
+		_ = RenderTemplates(context.Background(), pkg, packagetypes.PackageRenderContext{
+			Package: manifests.TemplateContextPackage{TemplateContextObjectMeta: manifests.TemplateContextObjectMeta{Name: "p", Namespace: "ns"}},
+			Config:  map[string]any{"n": 3},
+		})
+		return "nopanic"
+	})
+}
+
+func TestVerifC19RenderChild(t *testing.T) {
+	line := os.Getenv(c19ChildEnv)
+	if line == "" {
+		return
+	}
+	debug.SetMaxStack(256 << 20) // die after 256 MiB of stack instead of 1 GiB (bounded recursion needs a few MiB)
+	var s verifc19.Scn
+	if err := json.Unmarshal([]byte(line), &s); err != nil {
+		fmt.Println("C19CHILD BAD-SCENARIO")
+		return
+	}
+	fmt.Println("C19CHILD " + c19TmplRun(s))
+}
+
+func c19Child(s verifc19.Scn) string {
+	b, err := json.Marshal(s)
+	if err != nil {
+		return "BAD-SCENARIO"
+	}
+	ctx, cancel := context.WithTimeout(context.Background(), 90*time.Second)
+	defer cancel()
+	cmd := exec.CommandContext(ctx, os.Args[0], "-test.run=^TestVerifC19RenderChild$", "-test.count=1")
+	cmd.Env = append(os.Environ(), c19ChildEnv+"="+string(b), "GOTRACEBACK=single")
+	var stdout, stderr bytes.Buffer
+	cmd.Stdout, cmd.Stderr = &stdout, &stderr
+	_ = cmd.Run()
+	if ctx.Err() != nil {
+		return "TIMEOUT"
+	}
+	for _, l := range strings.Split(stdout.String(), "\n") {
+		if strings.HasPrefix(l, "C19CHILD ") {
+			return strings.TrimPrefix(l, "C19CHILD ")
+		}
+	}
+	why := "process-died"
+	for _, l := range strings.Split(stderr.String()+"\n"+stdout.String(), "\n") {
+		if strings.HasPrefix(l, "fatal error:") || strings.HasPrefix(l, "panic:") || strings.Contains(l, "stack overflow") {
+			why = l
+			break
+		}
+	}
+	return "PANIC process-died " + verifkit.Esc(why)
+}
+
 func c19RunRender(s verifc19.Scn) string {
 	const d = 20 * time.Second
 	ctx := context.Background()
 	switch s.Fn {
+	case "tmplX":
+		return c19Child(s)
 	case "render", "renderX":
 		var file []byte
 		if s.Fn == "render" {
@@ -234,6 +311,50 @@ func TestVerifC19Render(t *testing.T) {
 	n := r.Pick(1000, 20000)
 	for i := 0; i < n; i++ {
 		emit(verifc19.Scn{Fn: "parseCM", CM: verifc19.Ptr(mkCM(i%2 == 0))}, "random")
+	}
+
+	// ---- tmplX: recursion through `include` / `template` (the guard: at most 1000 nested includes of
+	// one name): direct, mutual, with includes of the same name COMPLETING on every level before the
+	// recursive one, counted recursion just below / above the bound, tree walks, recursion through
+	// computed names
+	obj := func(body string) string {
+		return "apiVersion: v1\nkind: ConfigMap\nmetadata:\n  name: t\n  annotations:\n    package-operator.run/phase: a\ndata:\n  v: " + body + "\n"
+	}
+	tmplFamilies := []map[string]string{
+		{"t.yaml.gotmpl": `{{- define "r" -}}{{ include "r" . }}{{- end -}}` + obj(`{{ include "r" . | quote }}`)},
+		{"t.yaml.gotmpl": `{{- define "a" -}}{{ include "b" . }}{{- end -}}{{- define "b" -}}{{ include "a" . }}{{- end -}}` + obj(`{{ include "a" . | quote }}`)},
+		{"_h.gotmpl": `{{- define "r" -}}{{ if .stop }}leaf{{ else }}{{ include "r" (dict "stop" true) }}{{ include "r" . }}{{ end }}{{- end -}}`,
+			"t.yaml.gotmpl": obj(`{{ include "r" (dict "stop" false) | quote }}`)},
+		{"_h.gotmpl": `{{- define "leaf" -}}x{{- end -}}{{- define "r" -}}{{ include "leaf" . }}{{ include "r" . }}{{ include "leaf" . }}{{- end -}}`,
+			"t.yaml.gotmpl": obj(`{{ include "r" . | quote }}`)},
+		{"_h.gotmpl": `{{- define "walk" -}}{{ if .node }}{{ include "walk" (dict "node" false "up" .up) }}{{ include "walk" (dict "node" true "up" .up) }}{{ end }}{{- end -}}`,
+			"t.yaml.gotmpl": obj(`{{ include "walk" (dict "node" true "up" true) | quote }}`)},
+		{"t.yaml.gotmpl": `{{- define "r" -}}{{ template "r" . }}{{- end -}}` + obj(`"{{ template "r" . }}"`)},
+		{"t.yaml.gotmpl": `{{- define "a" -}}{{ template "b" . }}{{- end -}}{{- define "b" -}}{{ include "a" . }}{{- end -}}` + obj(`{{ include "a" . | quote }}`)},
+		{"_h.gotmpl": `{{- define "r1" -}}{{ include "r2" . }}{{- end -}}{{- define "r2" -}}{{ include (printf "r%d" 1) . }}{{- end -}}`,
+			"t.yaml.gotmpl": obj(`{{ include "r1" . | quote }}`)},
+		{"a.yaml.gotmpl": `{{- define "ra" -}}{{ include "rb" . }}{{- end -}}` + obj(`"a"`), "b.yaml.gotmpl": `{{- define "rb" -}}{{ include "ra" . }}{{- end -}}` + obj(`{{ include "rb" . | quote }}`)},
+	}
+	for _, n := range []int{0, 1, 10, 500, 999, 1000, 1001, 1002, 3000} {
+		tmplFamilies = append(tmplFamilies, map[string]string{
+			"_h.gotmpl":     `{{- define "cnt" -}}{{ if gt (int .) 0 }}{{ include "cnt" (sub (int .) 1) }}{{ end }}x{{- end -}}`,
+			"t.yaml.gotmpl": obj(fmt.Sprintf(`{{ include "cnt" %d | len | quote }}`, n)),
+		})
+		// every level first completes an include of the same name, then recurses
+		tmplFamilies = append(tmplFamilies, map[string]string{
+			"_h.gotmpl":     `{{- define "cnt" -}}{{ if gt (int .) 0 }}{{ include "cnt" 0 }}{{ include "cnt" (sub (int .) 1) }}{{ end }}x{{- end -}}`,
+			"t.yaml.gotmpl": obj(fmt.Sprintf(`{{ include "cnt" %d | len | quote }}`, n)),
+		})
+	}
+	for d := 1; d <= r.Pick(6, 10); d += 2 { // binary tree walks of depth d
+		tmplFamilies = append(tmplFamilies, map[string]string{
+			"_h.gotmpl":     `{{- define "tree" -}}{{ if gt (int .) 0 }}{{ include "tree" (sub (int .) 1) }}{{ include "tree" (sub (int .) 1) }}{{ end }}.{{- end -}}`,
+			"t.yaml.gotmpl": obj(fmt.Sprintf(`{{ include "tree" %d | len | quote }}`, d)),
+		})
+	}
+	for _, f := range tmplFamilies {
+		b, _ := json.Marshal(f)
+		emit(verifc19.Scn{Fn: "tmplX", Blob: verifc19.Ptr(string(b))}, "tmpl-recursion")
 	}
 
 	// ---- render: objects with arbitrary metadata / annotation shapes
